@@ -538,7 +538,11 @@ func bindToListenerL4(
 		portHostname := fmt.Sprintf("%s:%d", h, l.Source.Port)
 		_, ok := portHostnamesMap[portHostname]
 		if !ok {
-			portHostnamesMap[portHostname] = struct{}{}
+			// only a Route on a valid listener is served, so only such a Route takes the hostname of the port
+			// away from the Routes that come after it
+			if l.Valid {
+				portHostnamesMap[portHostname] = struct{}{}
+			}
 			hostnames = append(hostnames, h)
 		}
 	}
